@@ -197,3 +197,39 @@ fn f5_remote_static_complete_after_conversion_p256() {
     assert_eq!(ti.get_remote_static().unwrap(), &kr.public[..], "TransportState truncates the remote static key");
     assert_eq!(tr.get_remote_static().unwrap(), &ki.public[..], "StatelessTransportState truncates the remote static key");
 }
+
+// ------------------------------------------------------------------------------------------------ F2
+
+/// F2 (C10): configuring a builder with keys of any length and building either role must return Ok or Err.
+#[test]
+fn f2_builder_key_lengths_never_panic() {
+    let params: NoiseParams = "Noise_KK_25519_ChaChaPoly_SHA256".parse().unwrap();
+    let bytes = [3u8; 200];
+    for initiator in [true, false] {
+        for (ls, lr, le) in [(33usize, 32usize, 32usize), (32, 57, 32), (32, 32, 33), (200, 200, 200), (32, 56, 32), (0, 0, 0), (31, 32, 32), (32, 33, 32)] {
+            let res = catch_unwind(AssertUnwindSafe(|| {
+                let b = Builder::new(params.clone())
+                    .local_private_key(&bytes[..ls])
+                    .unwrap()
+                    .remote_public_key(&bytes[..lr])
+                    .unwrap()
+                    .fixed_ephemeral_key_for_testing_only(&bytes[..le]);
+                if initiator {
+                    b.build_initiator().map(|_| ())
+                } else {
+                    b.build_responder().map(|_| ())
+                }
+            }));
+            match res {
+                Err(_) => panic!("build panicked for key lengths s={ls} rs={lr} e={le}"),
+                Ok(r) => {
+                    if (ls, lr, le) != (32, 32, 32) {
+                        assert!(r.is_err(), "keys of the wrong length accepted: s={ls} rs={lr} e={le}");
+                    }
+                },
+            }
+        }
+        let ok = Builder::new(params.clone()).local_private_key(&bytes[..32]).unwrap().remote_public_key(&bytes[..32]).unwrap();
+        assert!(if initiator { ok.build_initiator().is_ok() } else { ok.build_responder().is_ok() });
+    }
+}
